@@ -287,6 +287,8 @@ def fancy_index(ip, o, ids):
 
 
 def setitem(ip, o, idx, v):
+    if hasattr(o, 'pv_setitem'):
+        return o.pv_setitem(ip, idx, v)
     if isinstance(o, list):
         if isinstance(idx, SliceVal):
             raise Unsupported('slice assignment on list')
@@ -408,6 +410,10 @@ def binop(ip, op, a, b):
         if isinstance(op, (ast.Add, ast.Mod, ast.Mult)):
             return '<str>'
         raise Unsupported('string operation')
+    if hasattr(a, 'pv_compare'):
+        return a.pv_compare(ip, type(op).__name__, b)
+    if hasattr(b, 'pv_compare'):
+        return b.pv_compare(ip, type(op).__name__, a)
     if isinstance(a, InfVal) or isinstance(b, InfVal):
         raise Unsupported('arithmetic with inf')
     # list concatenation / repetition
@@ -996,6 +1002,8 @@ def opaque_method(ip, o, attr, args, kwargs):
 
 def b_len(ip, args, kw):
     v = args[0]
+    if hasattr(v, 'pv_len'):
+        return v.pv_len(ip)
     if isinstance(v, Obj):
         m = ip.find_method(v, '__len__')
         if m is None:
@@ -1109,6 +1117,8 @@ def type_of(ip, v):
     """set of type names a value is an instance of (None when unknown/opaque)."""
     if v is None:
         return {'NoneType'}
+    if hasattr(v, 'pv_types'):
+        return set(v.pv_types)
     if isinstance(v, bool) or (is_z3(v) and z3.is_bool(v)):
         return {'bool', 'int'}
     if is_int(v):
@@ -1499,6 +1509,10 @@ def copy_copy(ip, args, kw):
     if isinstance(v, SymMap):
         return v.copy()
     if isinstance(v, Obj):
+        if isinstance(v.cls, ClassRef):
+            m = v.cls.find('__copy__')
+            if m is not None:
+                return ip.call(m, [v], {})
         o = Obj(v.cls, dict(v.fields), v.tag)
         return o
     return v
@@ -1593,6 +1607,11 @@ PURE_PREFIXES = ('numpy.', 'scipy.', 'tensornetwork.', 'math.', 'numdifftools.',
 def call_library(ip, dotted, args, kw):
     if ip.registry is not None and dotted in ip.registry.lib_models:
         return ip.registry.lib_models[dotted](ip, args, kw)
+    icpt = getattr(ip.registry, 'lib_intercept', None) if ip.registry is not None else None
+    if icpt is not None:
+        r = icpt(ip, dotted, args, kw)
+        if r is not NotImplemented:
+            return r
     # `from copy import copy` style names arrive as 'copy.copy'
     if dotted in LIB:
         ip.lib_used.add(dotted)
